@@ -47,7 +47,7 @@ META = {
             "1-6 words, start strobe 1..8 cycles, gap 0..6 after idle, control inputs scrambled after the strobe; chip: RWDS "
             "valid delay 0..2, PHY delay 0..3, aligned or half-clock-shifted read data, first-word delay 0..5, pauses",
 }
-TIERS = {"quick": {"runs": 20000, "wall": 70}, "thorough": {"runs": 400000, "wall": 900}}
+TIERS = {"quick": {"runs": 60000, "wall": 70}, "thorough": {"runs": 400000, "wall": 900}}
 
 
 def gen(rng, tier, index):
